@@ -189,7 +189,7 @@ def extra_C20(tier, seed, log):
     return shutdown.run(tier, seed, log)
 
 
-EXTRA = {"C04": extra_C04, "C20": extra_C20, "C10": extra_C10, "C14": extra_C14, "C03": extra_C03, "C13": extra_sched("C13"), "C08": extra_sched("C08"), "C09": extra_sched("C09"), "C15": extra_C15, "C16": extra_sched("C16"), "C18": extra_sched("C18"), "C02": extra_sched("C02")}
+EXTRA = {"C04": extra_C04, "C20": extra_C20, "C10": extra_C10, "C14": extra_C14, "C03": extra_C03, "C13": extra_sched("C13"), "C08": extra_sched("C08"), "C09": extra_sched("C09"), "C15": extra_C15, "C16": extra_sched("C16"), "C18": extra_sched("C18"), "C02": extra_sched("C02"), "C17": extra_sched("C17")}
 
 
 def load_lines(path):
